@@ -166,6 +166,29 @@ pub fn run(a: &Args) -> Report {
         run_stream(&mut r, &stream, 0, 9);
         r.count("random_long_streams");
     }
+    // replica-shaped streams: many identical copies of one item (what 20 storing nodes answer), with a
+    // better item (higher seq, or the same seq with a greater value) before, inside or after the run
+    let n_runs = (if a.quick() { 1_600 } else { 40_000 }) / a.nshards.max(1);
+    for _ in 0..n_runs {
+        let base = *rng.pick(&all);
+        let copies = *rng.pick(&[18usize, 19, 20, 21, 25, 40, 60]);
+        let mut stream: Vec<&MutableItem> = vec![base; copies];
+        let extras = 1 + rng.usize(3);
+        for _ in 0..extras {
+            let x = *rng.pick(&all);
+            let pos = match rng.usize(3) {
+                0 => stream.len(),
+                1 => 0,
+                _ => rng.usize(stream.len() + 1),
+            };
+            stream.insert(pos, x);
+        }
+        run_stream(&mut r, &stream, 0, 9);
+        r.count("replica_run_streams");
+        if oracle(&stream).map(|(s, v)| s != base.seq() || v != base.value()).unwrap_or(false) && stream.last().map(|l| !std::ptr::eq(*l, base)).unwrap_or(false) {
+            r.count("replica_runs_beaten_by_a_later_item");
+        }
+    }
     drop(sw);
     let _ = worker.join();
     r.notes.insert("exhaustive_bound".into(), json!(format!("all sequences of length 0..={max_len} over each 6-item alphabet (= every permutation of every multiset of up to {max_len} items)")));
